@@ -547,7 +547,7 @@ def model_check(ctx):
     ctx.note('TLC WhichSpec: %d states, %d transitions, invariants WhichFirstMatch EnvPathWins DefaultOnlyWhenNoPath '
              'OnlyExecutables NothingEarlier hold (%.0fs)' % (r['distinct'], r['generated'], r['wall_s']))
     # model sensitivity: the splitter as it is upstream (starts inside an argument) must break RoundTrip
-    r = tlc.run('MCLaunch', 'Launch_split_asis.cfg', ctx.work, workers=2, timeout=300, outname='asis.out')
+    r = tlc.run('MCLaunch', 'Launch_split_asis.cfg', ctx.work, workers=2, timeout=300, outname='asis.out', only='RoundTrip')
     if r['violated'] != 'RoundTrip':
         raise tlc.TLCError('Launch/split: with deviation leading_ws TLC did not refute RoundTrip (%s), see %s' % (r['violated'], r['out']))
     runs.append(('split-asis', r))
